@@ -77,7 +77,7 @@ Print Assumptions C02_decoding_keeps_values_well_typed.
 
 Theorem C02_null : forall f t init,
   dec (S f) t (JLeaf TNull) init =
-  DOk (match t with TIface | TPtr _ | TSlice _ | TMap _ | TBytes => VNil | _ => init end).
+  DOk (match t with TIface | TPtr _ | TSlice _ | TMap _ | TBytes | TMapI _ _ _ => VNil | _ => init end).
 Proof. intros f t init. destruct t; reflexivity. Qed.
 
 Theorem C02_interface_takes_the_document : forall f d i1 i2, dec f TIface d i1 = dec f TIface d i2.
